@@ -39,7 +39,7 @@ CLAIMED = {
    "Seeded search over histories of dials, disconnects and restarts among 3-5 Networks under a PRNG schedule of partitions, one-way blackholes, loss bursts and heals, followed by a fault-free tail longer than idle timeout + connect timeout: at the end A lists B iff B lists A and every listed peer answers an RPC; disconnect removes at once with LostPeer(Requested); every one-sided close/loss is reported by the other side within idle timeout + keep-alive interval + latency.",
    NET_NOTE, TECH),
  "C10": ("exploration", "DESIGN.md §8 C10",
-   "Seeded search over sequential admission histories (arrivals, explicit and background outbound dials, disconnects, replacements, affinity changes at run time) for limits {none,0,1,2,3} against the reference admission rule; the dialer's connect is Ok iff the model admits, peers() equals the model after every step; lossy configuration checks 'never over-admits' only.",
+   "Seeded search over sequential admission histories (arrivals, explicit and background outbound dials, disconnects, replacements, affinity changes at run time) for limits {none,0,1,2,3} against the reference admission rule; the dialer's connect is Ok iff the model admits, peers() equals the model after every step; lossy configuration checks 'never over-admits' only. Second engine: the known-peer table the admission rule reads, under real threads with Miri's seeded scheduler (readers next to writers of other entries: an entry nobody touches is always found).",
    NET_NOTE, TECH),
  "C11": ("exploration", "DESIGN.md §8 C11",
    "Seeded search over (inbound default, outbound default, timeout header incl. 0, huge, overflowing, non-numeric, handler duration) on a constant-latency link so instants are exact to the millisecond: model deadline per side = min(default, parsed header); the handler is dropped exactly at the server deadline with a RequestTimeout reply or the caller errors exactly at its deadline; cases within 2L+quantum of a boundary are skipped; the real Builder::start wiring is what is exercised.",
@@ -91,7 +91,7 @@ def main():
             "thorough_cmd": f"./check {pid} thorough",
             "evidence_file": f"/verif/evidence/{pid}.json",
             "replay_cmd_template": "./check replay {path}",
-            "engine": "streamsim" if pid == "C07" else ("netsim+threads" if pid in ("C18", "C19", "C20") else "netsim"),
+            "engine": "streamsim" if pid == "C07" else ("netsim+threads" if pid in ("C10", "C18", "C19", "C20") else "netsim"),
             "level_claimed": {"category": cat, "text": text, "design_ref": ref},
             "level_note": note,
             "technique": tech,
